@@ -158,7 +158,7 @@ inductive SetTok where
 
 def SetTok.value (needed : Nat) : SetTok → Nat
   | .needed => needed
-  | .minus k => needed - k
+  | .minus k => (needed + 18446744073709551616 - k) % 18446744073709551616     -- uint64_t arithmetic of the harness
   | .plus k => needed + k
   | .abs v => v
 
